@@ -269,7 +269,7 @@ func (s *Solver) buildQuery(p *proc, pc []*Term, extra []*Term, getVals []*Term)
 
 // safeQuoteRe: strings that %+q renders verbatim between quotes.
 var safeQuoteRe = &Regex{Pattern: "safe", SMT: `(re.* (re.union (re.range " " "!") (re.range "#" "[") (re.range "]" "~")))`}
-var quotedOutRe = &Regex{Pattern: "quoted", SMT: `(re.++ (str.to_re """") (re.* (re.range " " "~")) (str.to_re """"))`}
+var quotedOutRe = &Regex{Pattern: "quoted", SMT: `(re.++ (str.to_re """") (re.* (re.union (re.range " " "!") (re.range "#" "[") (re.range "]" "~") (re.++ (str.to_re "\u{5c}") (re.range " " "~")))) (str.to_re """"))`}
 
 var (
 	appAxMu   sync.Mutex
